@@ -22,6 +22,7 @@ type c13Prog struct {
 	Setup func(s *z80.States)
 	Halts bool
 	ZeroIO bool
+	Fill   []uint8 // the whole memory holds this byte pattern (no instruction ever ends the prefix run / the program never leaves)
 }
 
 var c13Progs = []c13Prog{
@@ -47,6 +48,14 @@ var c13Progs = []c13Prog{
 		s.HL.SetU16(0x4000)
 		s.BC.SetU16(0)
 	}},
+	{Name: "memory filled with DD", Fill: []uint8{0xdd}},
+	{Name: "memory filled with FD", Fill: []uint8{0xfd}},
+	{Name: "memory filled with DD FD", Fill: []uint8{0xdd, 0xfd}},
+	{Name: "memory filled with ED", Fill: []uint8{0xed}},
+	{Name: "memory filled with CB", Fill: []uint8{0xcb}},
+	{Name: "memory filled with NOP", Fill: []uint8{0x00}},
+	{Name: "memory filled with RST 38", Fill: []uint8{0xff}},
+	{Name: "memory filled with DD CB", Fill: []uint8{0xdd, 0xcb}},
 	{Name: "generated terminating program", Halts: true},
 }
 
@@ -98,7 +107,7 @@ const c13Bound = 3000 // bus accesses tolerated after the context is done (a cor
 // C13 — cancellation of Run; whole binary under -race.
 func runC13(c *Ctx) {
 	mon.DiscardStdLog()
-	ncalls := c.Pick(3000, 100000)
+	ncalls := c.Pick(2400, 100000)
 	r := mon.NewRng(uint64(c.Seed) ^ 0xC13)
 	var evals, leaks, promptTrips int64
 	distinct := mon.NewDistinct(1_000_000)
@@ -136,9 +145,11 @@ func runC13(c *Ctx) {
 		}
 	}
 
-	mem, tm := &mon.Mem{}, &mon.Mem{}
+	mem0, tm0 := &mon.Mem{}, &mon.Mem{}
+	fillMems := map[string][2]*mon.Mem{}
 	var fill uint64
 	for call := 0; call < ncalls; call++ {
+		mem, tm := mem0, tm0
 		if promptTrips >= 3 || c.R.Violations() >= 20 {
 			break // each further trip costs seconds of 1 ms sleeps; the verdict is already clear
 		}
@@ -153,8 +164,8 @@ func runC13(c *Ctx) {
 		pg := c13Progs[pi]
 		if call%100 == 0 {
 			fill = r.U64()
-			mem.Fill(fill)
-			tm.Fill(fill)
+			mem0.Fill(fill)
+			tm0.Fill(fill)
 		}
 		mem.Reset()
 		tm.Reset()
@@ -175,6 +186,22 @@ func runC13(c *Ctx) {
 				pg.Setup(&st)
 			}
 			mem.Place(0x0100, pg.Code...)
+			if pg.Fill != nil {
+				// pre-filled memories, one pair per pattern (Reset undoes the program's writes)
+				pair, ok := fillMems[pg.Name]
+				if !ok {
+					pair = [2]*mon.Mem{{}, {}}
+					for _, m := range pair {
+						for a := 0; a < 65536; a++ {
+							m.Data[a] = pg.Fill[a%len(pg.Fill)]
+						}
+					}
+					fillMems[pg.Name] = pair
+				}
+				mem, tm = pair[0], pair[1]
+				mem.Reset()
+				tm.Reset()
+			}
 		}
 		// starting R: the refresh counter must not influence promptness
 		switch r.Intn(6) {
@@ -331,7 +358,9 @@ func runC13(c *Ctx) {
 			if pg.Halts {
 				genP.Install(tm)
 			} else {
-				tm.Place(0x0100, pg.Code...)
+				if pg.Fill == nil {
+					tm.Place(0x0100, pg.Code...)
+				}
 			}
 			twin := &z80.CPU{States: pre, Memory: tm, IO: &mon.IO{Seed: fill}}
 			for tm.Count < mem.Count {
@@ -369,6 +398,73 @@ func runC13(c *Ctx) {
 		}
 	}
 	flushBatch("final")
+
+	// hook-free phase: short terminating programs whose context is done at about
+	// the moment they halt, with NO yields or sleeps in the callbacks, so that the
+	// HALT exit and the publication of the cancellation really overlap (a race on
+	// the hand-off variables only shows then)
+	nfree := c.Pick(1500, 40000)
+	var freeNil, freeErr int64
+	for i := 0; i < nfree && c.R.Violations() < 20; i++ {
+		if i%200 == 0 {
+			runtime.GOMAXPROCS([]int{2, 16, 1}[(i/200)%3])
+		}
+		gp := GenProgram(r, GenOpts{Base: 0x0100, MinBlocks: 1, MaxBlocks: 1 + r.Intn(6), IM: 1, NoIO: true})
+		mem0.Reset()
+		gp.Install(mem0)
+		cpu := &z80.CPU{States: gp.Init, Memory: mem0}
+		var ctx context.Context
+		var cancel context.CancelFunc
+		kind := i % 4
+		switch kind {
+		case 0:
+			ctx, cancel = context.WithCancel(context.Background())
+			cancel()
+		case 1:
+			ctx, cancel = context.WithDeadline(context.Background(), time.Now().Add(-time.Second))
+		case 2:
+			ctx, cancel = context.WithCancel(context.Background())
+			go cancel()
+		case 3:
+			ctx, cancel = context.WithCancel(context.Background())
+			spin := r.Intn(3000)
+			go func() {
+				x := 0
+				for k := 0; k < spin; k++ {
+					x += k
+				}
+				_ = x
+				cancel()
+			}()
+		}
+		var err error
+		var pan interface{}
+		func() {
+			defer func() { pan = recover() }()
+			err = cpu.Run(ctx)
+		}()
+		evals++
+		switch {
+		case pan != nil:
+			c.R.Violation("C13/hook-free/panic", map[string]interface{}{"panic": fmt.Sprint(pan)})
+		case err == nil:
+			freeNil++
+			if !(cpu.HALT && cpu.PC == gp.HaltAddr) {
+				c.R.Violation("C13/hook-free/nil-without-halt", map[string]interface{}{"state": DumpState(&cpu.States, cpu.HALT), "halt_addr": h16(gp.HaltAddr)})
+			}
+		default:
+			freeErr++
+			if err != ctx.Err() {
+				c.R.Violation("C13/hook-free/wrong-error", map[string]interface{}{"returned": fmt.Sprint(err), "ctx_err": fmt.Sprint(ctx.Err()), "kind": kind})
+			}
+		}
+		cancel()
+		distinct.Add(mon.Hash(0xf4ee, uint64(i)))
+	}
+	flushBatch("hook-free")
+	c.R.Set("hook_free_run_calls", int64(nfree))
+	c.R.Set("hook_free_returned_nil_halted", freeNil)
+	c.R.Set("hook_free_returned_ctx_error", freeErr)
 
 	// race detector reports
 	prefix := mon.RaceLogPrefix()
@@ -417,6 +513,6 @@ func runC13(c *Ctx) {
 	c.R.Set("gomaxprocs", pm)
 	c.R.Set("programs", int64(len(c13Progs)))
 	c.R.Set("exhaustive", false)
-	c.R.Set("rule", "Run calls on {JR loop, JP loop, JP (IX) loop and LDIR/OTIR/CPIR loops made of prefixed instructions only, INIR and LDIR loops, a port-polling loop, generated terminating programs} with starting R in {0,1,3,7F,random} x cancellation {from inside the program's own bus callback at access 1,2,10,1000,100000 or random, from a second goroutine after a random spin, cancelled before the call, deadline already expired, deadline in 1 ms, a child of a parent cancelled from the callback, never (program halts; context kept alive)} x GOMAXPROCS {1,2,16}. Oracle: returned error == ctx.Err() (nil with the halted state also legal for terminating programs); logical promptness: once the context is done every bus callback yields / sleeps 1 ms and Run may make at most 3000 further accesses (a correct loop needs 1..6) - a count, not a stopwatch; the final States and memory must equal a Step-driven twin advanced to the same access count (whole number of Steps); after every batch of 50 calls no goroutine with a z80 frame may remain, first while the batch's never-cancelled contexts are still alive, then after cancelling them; zero race reports (binary built with -race). Distinct = distinct (program, GOMAXPROCS, cancellation instant, starting R, mode)")
+	c.R.Set("rule", "Run calls on {JR loop, JP loop, JP (IX) loop and LDIR/OTIR/CPIR loops made of prefixed instructions only, INIR and LDIR loops, a port-polling loop, memories filled with one prefix/opcode pattern (DD, FD, DD FD, ED, CB, DD CB, NOP, RST 38), generated terminating programs} with starting R in {0,1,3,7F,random} x cancellation {from inside the program's own bus callback at access 1,2,10,1000,100000 or random, from a second goroutine after a random spin, cancelled before the call, deadline already expired, deadline in 1 ms, a child of a parent cancelled from the callback, never (program halts; context kept alive)} x GOMAXPROCS {1,2,16}. Oracle: returned error == ctx.Err() (nil with the halted state also legal for terminating programs); logical promptness: once the context is done every bus callback yields / sleeps 1 ms and Run may make at most 3000 further accesses (a correct loop needs 1..6) - a count, not a stopwatch; the final States and memory must equal a Step-driven twin advanced to the same access count (whole number of Steps); after every batch of 50 calls no goroutine with a z80 frame may remain, first while the batch's never-cancelled contexts are still alive, then after cancelling them; a hook-free phase runs short terminating programs with contexts that are done at about the moment of the HALT (no yields/sleeps anywhere) so that the race detector sees the HALT exit overlap the publication of the cancellation; zero race reports (binary built with -race). Distinct = distinct (program, GOMAXPROCS, cancellation instant, starting R, mode)")
 	c.R.Assume("nothing assumes that a watcher goroutine exists; leak accounting looks only at goroutines with frames of the code under test")
 }
